@@ -93,12 +93,19 @@ const subGpos = `GPOS2: A V -> dx-200, T O -> dx-100`
 
 func gtabInfo(ll gtab.LookupList, tag string, top []gtab.LookupIndex) *gtab.Info {
 	return &gtab.Info{
+		// feature 0 is the required feature; besides the main optional feature
+		// (all lookups) there are two small optional features, so that the lookups
+		// of the selected optional features fit into whatever spare capacity the
+		// reader leaves behind the required feature's list (fonts that went through
+		// Write/Read have append-grown slices with cap > len)
 		ScriptList: map[language.Tag]*gtab.Features{
-			language.MustParse("und-Zzzz"): {Required: 0, Optional: []gtab.FeatureIndex{1}},
+			language.MustParse("und-Zzzz"): {Required: 0, Optional: []gtab.FeatureIndex{1, 2, 3}},
 		},
 		FeatureList: []*gtab.Feature{
-			{Tag: "test", Lookups: top},
+			{Tag: "test", Lookups: top[:(len(top)+1)/2+(len(top)+1)%2]},
 			{Tag: tag, Lookups: top},
+			{Tag: "ss01", Lookups: top[len(top)-1:]},
+			{Tag: "ss02", Lookups: top[:1]},
 		},
 		LookupList: ll,
 	}
@@ -684,9 +691,16 @@ var layoutLangs = []language.Tag{language.AmericanEnglish, language.German, lang
 // Op_Layout: a new Layouter per call, all texts.
 func Op_Layout(e *Env, tc *ThreadCtx, arg int) string {
 	var gs, gp map[string]bool
-	if arg%3 == 1 {
+	switch arg % 4 {
+	case 1:
 		gs = map[string]bool{"liga": true}
 		gp = map[string]bool{}
+	case 2: // one small optional feature next to the required one
+		gs = map[string]bool{"ss01": true}
+		gp = map[string]bool{"ss02": true}
+	case 3:
+		gs = map[string]bool{"ss02": true, "liga": false}
+		gp = map[string]bool{"ss01": true, "kern": false}
 	}
 	l, err := e.Font.NewLayouter(layoutLangs[arg%len(layoutLangs)], gs, gp)
 	if err != nil {
